@@ -116,7 +116,11 @@ def _(value: Enum):
 @customize_repr
 def _(value: Flag):
     name = type(value).__qualname__
-    return " | ".join(f"{name}.{flag.name}" for flag in type(value) if flag in value)
+    members = [f"{name}.{flag.name}" for flag in type(value) if flag in value]
+    if not members:
+        # a flag without any member set (e.g. `Flag(0)`) has no member to name
+        return f"{name}({value.value!r})"
+    return " | ".join(members)
 
 
 def sort_set_values(set_values):
